@@ -70,7 +70,7 @@ Definition acan_copy (sh : shape) (s : astate) : bool :=
   as_replied s && (negb (sh_drain_first sh) || (n_pre (as_ct s) =? 0)).
 Definition aany_closed (s : astate) : bool := as_up s || as_down s.
 Definition amay_break (sh : shape) (s : astate) (d : dir) : bool :=
-  aany_closed s || (negb (sh_clears_deadline sh) && dir_eqb d CT).
+  aany_closed s || (negb (sh_clears_deadline sh) && dir_eqb d CT) || (negb (sh_clears_wdeadline sh) && dir_eqb d TC).
 Definition ais_done (x : adstate) : bool := cop_eqb (n_cop x) Done.
 Definition aboth_done (s : astate) : bool := ais_done (as_ct s) && ais_done (as_tc s).
 Definition afinished (sh : shape) (s : astate) : bool :=
